@@ -50,12 +50,13 @@ func main() {
 			"reference semantics R1-R6 of vmkit/lib.go",
 			"query values are equal up to flattening of nested and/or of the same operator",
 			"when the VM panics on the ORIGINAL program (C21 findings) only the reference-level and static checks are applied",
-			"VM-only differences attributed by the reference interpreter to escaping closures (U1) or partial application of a variadic (U2) are counted as unsettled outcomes",
+			"VM-only differences attributed by the reference interpreter to escaping closures (U1) or partial application of a variadic (U2), or caused by the VM rejecting at compile time a call whose function Simplify turned into a literal (U3), are counted as unsettled outcomes",
 		},
 		CaseTimeout: 120e9,
-		// sized for about 25 s (quick) / 7 min (thorough) on 16 idle cores; the deadlines leave room for a loaded machine
-		QuickDeadline:    4 * 60e9,
-		ThoroughDeadline: 25 * 60e9,
+		// sized for about 25 s (quick) / 4-5 min (thorough, about 60 CPU-minutes) on 16 idle cores; the deadlines
+		// leave room for a machine shared with other checks
+		QuickDeadline:    5 * 60e9,
+		ThoroughDeadline: 45 * 60e9,
 		WorkerEnv:        []string{"GOMAXPROCS=2", "GOGC=300"},
 		Build:            build,
 	})
